@@ -161,6 +161,19 @@ Theorem C19_negotiate_set_extensional : forall A A' B B',
 Proof. exact negotiate_set_extensional. Qed.
 Print Assumptions C19_negotiate_set_extensional.
 
+(* the same for getOrStoreHighestVersion with any cache state (result and cache afterwards), and for whole call histories *)
+Theorem C19_get_or_store_set_extensional : forall own own' c node l l',
+  same_set own own' -> same_set l l' ->
+  get_or_store own c node (PvList l) = get_or_store own' c node (PvList l').
+Proof. exact gos_set_extensional. Qed.
+Print Assumptions C19_get_or_store_set_extensional.
+
+Theorem C19_history_set_extensional : forall own steps steps' c,
+  Forall2 (fun s s' => fst s = fst s' /\ same_entry (snd s) (snd s')) steps steps' ->
+  gos_history own c steps = gos_history own c steps'.
+Proof. exact gos_history_set_extensional. Qed.
+Print Assumptions C19_history_set_extensional.
+
 (* why both sides must derive the SAME version: a single-item uTP stream framed under one version and unframed under
    the other never yields the sent bytes - it is either rejected or altered (1..5 bytes more, or at least one fewer) *)
 Theorem C19_framing_mismatch_never_delivers : forall vs vr d,
